@@ -1,17 +1,28 @@
+import os
+import sys
+
+sys.path.insert(0, os.path.join(os.path.dirname(os.path.dirname(os.path.abspath(__file__))), "translate"))
+import c03_source
+
 SPEC = {
+    "translators": [c03_source.translate],
     "trusted": [
-        "C03: BufRead::lines and UTF-8 decoding are modelled (raw_lines on code points: LF ends a line, one CR before it is dropped, a last line without LF keeps its CR), not verified; all texts of the correspondence run are valid UTF-8, a reader input that is not UTF-8 is outside the model",
-        "C03: the nested WithMoreIdentIter loops of tiny_v2::read are modelled as grouping by indentation (build) followed by structurally recursive handlers that reject children under a line whose handler does not descend; that this factorisation has the same Ok/Err behaviour and the same results as the Rust control flow is tied by correspondence only (exhaustively for every sequence of up to 3 (quick) / 4 (thorough) lines out of 16 line shapes below a header, plus mutated and random texts)",
-        "C03: Rust's sort_by_key is assumed to return the stable sorted permutation; the model uses insertion sort over the derived Ord of the info structs (Quill/Mappings.v); lemma sorted_perm_unique makes the algorithm irrelevant for well-formed sets",
+        "C03: BufRead::lines and UTF-8 are MODELLED at the byte level (C03/ModelBytes.v: raw_lines on bytes - LF ends a line, one CR before it is dropped, a last line without LF keeps its CR; every line validated on its own by a strict decoder: no overlong forms, no surrogates, nothing above U+10FFFF) and proved equal to `decode the whole file, then read the code points` (C03_read_bytes_spec); that std's lines()/from_utf8 behave like this model is tied by the byte-level correspondence stream (22 kinds of ill-formed sequences in the header, in the deepest line, at the end without LF, alone; separators inside a multi-byte character; the first and last character of every encoded length), not verified",
+        "C03: the nested WithMoreIdentIter loops of tiny_v2::read are modelled as grouping by indentation (build) followed by structurally recursive handlers that reject children under a line whose handler does not descend; that this factorisation has the same Ok/Err behaviour and the same results as the Rust control flow is tied by correspondence only (exhaustively for every sequence of up to 3 (quick) / 4 (thorough) lines out of 16 line shapes below a header, plus mutated, reordered, re-line-ended and random texts)",
+        "C03: Rust's sort_by_key is assumed to return the stable sorted permutation; the model uses insertion sort over the derived Ord of the info structs (Quill/Mappings.v); lemma sorted_perm_unique makes the algorithm irrelevant for well-formed sets. That the derived Ord of a struct is lexicographic in declaration order and that [Option<T>; N] orders None < Some element-wise is Rust's definition of derive(Ord) (trusted); the field ORDER, the sort key `&x.info` of all four loops of `write`, the ESCAPES table, the shape of escape/unescape and the header literals are regenerated from the sources by translate/c03_source.py (fails closed) into C03/SrcGen.v and compared with the model by C03_writer_order_from_source, C03_escapes_from_source, C03_header_from_source",
         "C03: the name-validity predicates used by the reader (ObjClassName/FieldName/MethodName/ParameterName::check_valid) are those of the C18 model (coq/C18/Model.v)",
         "C03: write_string on a name containing an unpaired surrogate panics inside io::Write::write_fmt (duke's Display returns fmt::Error); the model's write answers Err for exactly this outcome and the correspondence compares it as WPanic",
-        "C03: correspondence cases carry strings as packed UTF-8 in primitive 63-bit integers (decoder C03.Run.u, evaluated by vm_compute; Uint63 is used only there, never in a theorem)",
-        "C03: the harness' independent one-pass row classifier (ref_rows) and its copy of wf/textual (checked against Coq's on every generated mapping set) are the oracles used to search for failing inputs on the implementation",
+        "C03: correspondence cases carry strings and byte files as packed bytes in primitive 63-bit integers (decoders C03.Run.u / C03.Run.ub, evaluated by vm_compute; Uint63 is used only there, never in a theorem)",
+        "C03: the harness' independent one-pass row classifier (ref_rows), its independent grouping of lines by indentation (group, used to reorder sibling sections), and its copy of wf/textual (checked against Coq's on every generated mapping set) are the oracles used to search for failing inputs on the implementation",
     ],
     "assumptions": [
         "wf M (Quill/Mappings.v): at least two namespaces with non-empty names; every names row has one cell per namespace and no empty string; classes, fields and methods have a first-namespace name; keys (class name / member name+descriptor / parameter index) are unique within their parent - the invariants quill's IndexMaps and checked constructors maintain (and which read is proved to establish: C03_read_ok_wf)",
         "textual M (C03/Model.v): namespace names, names and descriptors contain no TAB and no LF and do not end in CR (a cell at the end of a line would lose it); names and descriptors consist of Unicode scalar values; names are valid for their type (the reader uses the checked constructors: class names / unqualified names / method names as in C18); parameter indices fit usize. No condition on comments (after fix 1ac2bb2) and none on the mappings' own comment (after fix 29d9cf3).",
+        "rust_strings M (C03/Theory13.v; only for the byte-level round trip C03_read_write_bytes and C03_write_scalar): namespace names and comments consist of Unicode scalar values - they are Rust `String`s",
+        "C03_read_forest / C03_read_sibling_order: the lines of the text are a header followed by a forest in which every line sits one level below its parent (depth_ok) - exactly the texts that are not rejected for their indentation (C03_read_not_indented_err covers the rest); fperm is the closure of `swap two adjacent siblings` under the forest structure",
+        "line endings: C03_read_crlf needs `no CR directly before a LF in the original` (C03_crlf_condition_needed shows the header `a b CR LF` converted once more reads the namespace `b CR`); C03_read_final_lf needs the last character to be neither LF nor CR (C03_final_cr_example); C03_read_extra_lf is unconditional; an empty line anywhere else ends every open section (C03_blank_middle_example)",
         "the theorems hold for every number of namespaces >= 2, not only 2..4",
     ],
-    "stated_not_proved": [],
+    "stated_not_proved": [
+    ],
 }
